@@ -438,6 +438,70 @@ def add_net(U):
         }
         proto::gossip::PushValidatorAddrs {""")]))
     mod_close(U, "rpc_push_validator_addrs")
+    # ---- ProtoRepr (the reverse trait: implemented on the proto type) and the two requests that use it
+    U.raw("""
+// the ProtoRepr trait with the same round-trip contract (C09), stated from the proto side
+pub trait ProtoRepr: Sized {
+    type Type;
+    spec fn enc(t: Self::Type) -> Self;
+    fn read(&self) -> (res: Result<Self::Type, AnyhowError>)
+        ensures forall|t: Self::Type| #[trigger] Self::enc(t) == *self ==> res == Ok::<Self::Type, AnyhowError>(t);
+    fn build(this: &Self::Type) -> (p: Self)
+        ensures p == Self::enc(*this);
+}
+""", label="prelude ProtoRepr")
+    F_REPR = P + "repr.rs"
+    HR = [("anyhow::Result<P::Type>", "Result<P::Type, AnyhowError>", None), ("anyhow::Result<Option<P::Type>>", "Result<Option<P::Type>, AnyhowError>", None)]
+    U.fn(F_REPR, "fn read_required_repr", ret="res", header_subs=HR, rules_=RULES, spec="""
+    ensures forall|t: P::Type| Some(#[trigger] P::enc(t)) == *field ==> res == Ok::<P::Type, AnyhowError>(t),
+            field.is_none() ==> res.is_err(),
+""")
+    U.fn(F_REPR, "fn read_optional_repr", ret="res", header_subs=HR, rules_=RULES,
+         subs=[(".map(ProtoRepr::read)", ".map(|verif_x: &P| -> (verif_o: Result<P::Type, AnyhowError>) "
+                "ensures forall|t: P::Type| #[trigger] P::enc(t) == *verif_x ==> verif_o == Ok::<P::Type, AnyhowError>(t) { ProtoRepr::read(verif_x) })   /* R-ctorfn (eta) + W-closure */")],
+         spec="""
+    ensures field.is_none() ==> res == Ok::<Option<P::Type>, AnyhowError>(None),
+            forall|t: P::Type| Some(#[trigger] P::enc(t)) == *field ==> res == Ok::<Option<P::Type>, AnyhowError>(Some(t)),
+""")
+    F_BS = "node/libs/engine/src/block_store.rs"
+    mod_open(U, "rpc_push_block_store_state")
+    U.item(F_BS, "enum Last", subs=[("validator::BlockNumber", "BlockNumber"), ("validator::v2::CommitQC", "CommitQC")])
+    U.item(F_BS, "struct BlockStoreState", subs=[("validator::BlockNumber", "BlockNumber")])
+    U.item(N + "rpc/push_block_store_state.rs", "struct Req")
+    F_PB = N + "rpc/push_block_store_state.rs"
+    PG = [("proto::", "proto::gossip::", None), ("validator::BlockNumber", "BlockNumber", None)]
+    HSR = [("anyhow::Result<Self::Type>", "Result<Self::Type, AnyhowError>", None)]
+    U.trait_impl(F_PB, "impl ProtoRepr for proto::Last", header_subs=PG + HSR,
+                 extra="""    open spec fn enc(t: Last) -> proto::gossip::Last {
+        proto::gossip::Last { t: Some(match t {
+            Last::PreGenesis(n) => proto::gossip::last::T::PreGenesis(n.0),
+            Last::FinalV2(qc) => proto::gossip::last::T::FinalV2(qc.enc()),
+        }) }
+    }""",
+                 fns=dict(read=dict(header_subs=HSR, rules_=RULES, ret="res", proof_at_start=BU, subs=PG),
+                          build=dict(header_subs=HSR, rules_=RULES, ret="p", proof_at_start=BU, subs=PG)))
+    U.trait_impl(F_PB, "impl ProtoRepr for proto::BlockStoreState", header_subs=PG + HSR,
+                 extra="""    open spec fn enc(t: BlockStoreState) -> proto::gossip::BlockStoreState {
+        proto::gossip::BlockStoreState { first: Some(t.first.0),
+            last: match t.last { Some(l) => Some(<proto::gossip::Last as ProtoRepr>::enc(l)), None => None } }
+    }""",
+                 fns=dict(read=dict(header_subs=HSR, rules_=RULES, ret="res", proof_at_start=BU, subs=PG),
+                          build=dict(header_subs=HSR, rules_=RULES, ret="p", proof_at_start=BU,
+                                     subs=PG + [("this.last.as_ref().map(ProtoRepr::build)",
+                                                 "this.last.as_ref().map(|verif_x: &Last| -> (verif_o: proto::gossip::Last) ensures verif_o == <proto::gossip::Last as ProtoRepr>::enc(*verif_x) { ProtoRepr::build(verif_x) })   /* R-ctorfn (eta) + W-closure */")])))
+    net_impl(F_PB, "Req", "gossip", "PushBlockStoreState",
+             "proto::gossip::PushBlockStoreState { state: Some(<proto::gossip::BlockStoreState as ProtoRepr>::enc(self.state)) }")
+    mod_close(U, "rpc_push_block_store_state")
+    mod_open(U, "rpc_push_tx")
+    U.item("node/libs/engine/src/transaction.rs", "struct Transaction")
+    U.item(N + "rpc/push_tx.rs", "struct Req")
+    U.trait_impl(N + "rpc/push_tx.rs", "impl ProtoRepr for proto::Transaction", header_subs=PG + HSR,
+                 extra="    open spec fn enc(t: Transaction) -> proto::gossip::Transaction { proto::gossip::Transaction { tx: Some(t.0) } }",
+                 fns=dict(read=dict(header_subs=HSR, rules_=RULES, ret="res", proof_at_start=BU, subs=PG),
+                          build=dict(header_subs=HSR, rules_=RULES, ret="p", proof_at_start=BU, subs=PG)))
+    net_impl(N + "rpc/push_tx.rs", "Req", "gossip", "PushTx",
+             "proto::gossip::PushTx { tx: Some(<proto::gossip::Transaction as ProtoRepr>::enc(self.0)) }")
+    mod_close(U, "rpc_push_tx")
     U.assume("A3: ProtoFmt of node::PublicKey / node::Signature (ed25519) satisfies the round-trip contract; A2: semver parse/to_string round-trip")
 def add_genesis(U):
     """C10: decoding a Genesis never reaches the `unreachable!()` of GenesisRaw::build (Genesis::read re-encodes what it decoded to
